@@ -88,11 +88,11 @@ theorem pin_auth_counter (trust : Option Bool) (text p : Str) (failed : Int) (s 
 other than `True` (which `check_pin_trust` never gives then, see `pin_request_eq`): as long as the
 PIN comparison is not reached (`trust` is not `False`, or the client is locked out) the answer is
 still the model's - the PIN is not looked at -; on the comparison path `pin.replace` is applied to
-`None`: TypeError, with the counter untouched. -/
+`None`: AttributeError, with the counter untouched. -/
 theorem pin_auth_no_pin (trust : Option Bool) (text : Str) (failed : Int) (s l : Bool)
     (h0 : 0 ≤ failed) (h1 : failed ≤ 255) :
     Gen.PyFns_Debug.pin_auth true trust (.ok text) none failed s l ()
-      = if trust = some false ∧ failed ≤ 10 then ((failed, s, l), .error "TypeError")
+      = if trust = some false ∧ failed ≤ 10 then ((failed, s, l), .error "AttributeError")
         else pinAuthSpec (trustOf trust) false failed s l := by
   apply PyFnsEq.Debug.pin_auth_no_pin <;> assumption
 
@@ -116,15 +116,15 @@ theorem pin_auth_entered_unread (host_trusted : Bool) (trust : Option Bool)
       = Gen.PyFns_Debug.pin_auth host_trusted trust entered' pin failed s l () := by
   apply PyFnsEq.Debug.pin_auth_entered_unread <;> assumption
 
-/-- Exactly when the translated `pin_auth` raises TypeError (given that the `pin` argument does not
+/-- Exactly when the translated `pin_auth` raises AttributeError (given that the `pin` argument does not
 itself carry that error text): the Host is trusted, the verdict is `False`, the client is not
 locked out, the argument is present, and no PIN is configured. For every counter value. -/
-theorem pin_auth_type_error_iff (host_trusted : Bool) (trust : Option Bool)
+theorem pin_auth_attribute_error_iff (host_trusted : Bool) (trust : Option Bool)
     (entered : Except String Str) (pin : Option Str) (failed : Int) (s l : Bool)
-    (hent : entered ≠ .error "TypeError") :
-    (Gen.PyFns_Debug.pin_auth host_trusted trust entered pin failed s l ()).2 = .error "TypeError"
+    (hent : entered ≠ .error "AttributeError") :
+    (Gen.PyFns_Debug.pin_auth host_trusted trust entered pin failed s l ()).2 = .error "AttributeError"
       ↔ host_trusted = true ∧ trust = some false ∧ failed ≤ 10 ∧ (∃ t, entered = .ok t) ∧ pin = none := by
-  apply PyFnsEq.Debug.pin_auth_type_error_iff <;> assumption
+  apply PyFnsEq.Debug.pin_auth_attribute_error_iff <;> assumption
 
 /-- **`pin_auth` composed with `check_pin_trust`** (both as translated from the current source)
 is the model's pinauth handler: for a trusted Host, a counter within the byte range and a present
@@ -149,18 +149,18 @@ theorem pin_request_untrusted_host (hash_pin : Str → Str) (fresh : Int → Boo
     pinRequest hash_pin fresh cookie false entered pin failed s l = ((failed, s, l), .ok none) := by
   apply PyFnsEq.Debug.pin_request_untrusted_host <;> assumption
 
-/-- **The TypeError arm of `pin_auth` is dead code**: the translation has to provide for
+/-- **The AttributeError arm of `pin_auth` is dead code**: the translation has to provide for
 `pin.replace("-", "")` on `self.pin = None` (`t.cast(str, self.pin)` is no check), but when the
 trust verdict comes from `check_pin_trust` on the same `self.pin` - as it does in the source - a
 missing PIN makes the verdict `True` and the PIN comparison is not reached. For every `hash_pin`,
 clock, cookie, Host verdict, `pin` argument (present or KeyError), PIN (or `None`), counter and
-flags, the composed handler never yields TypeError. -/
-theorem pin_request_no_type_error (hash_pin : Str → Str) (fresh : Int → Bool)
+flags, the composed handler never yields AttributeError. -/
+theorem pin_request_no_attribute_error (hash_pin : Str → Str) (fresh : Int → Bool)
     (cookie : Option Str) (host_trusted : Bool) (entered : Except String Str) (pin : Option Str)
-    (failed : Int) (s l : Bool) (hent : entered ≠ .error "TypeError") :
+    (failed : Int) (s l : Bool) (hent : entered ≠ .error "AttributeError") :
     (pinRequest hash_pin fresh cookie host_trusted entered pin failed s l).2
-      ≠ .error "TypeError" := by
-  apply PyFnsEq.Debug.pin_request_no_type_error <;> assumption
+      ≠ .error "AttributeError" := by
+  apply PyFnsEq.Debug.pin_request_no_attribute_error <;> assumption
 
 /-- `Dbg.respond` is: select the handler (`handler`), then run it (`handlerOutcome`). So every C20
 statement about `respond` is a statement about the handler selection proved equal to the translated
